@@ -130,7 +130,7 @@ def translate_params():
 
 def params_v(p):
     L = ["(* GENERATED by lib/translate.py from /repo's working tree -- do not edit, never committed *)",
-         "From Coq Require Import NArith ZArith List.", "Import ListNotations.", "Open Scope N_scope.", ""]
+         "From Coq Require Import NArith ZArith List.", "Import ListNotations.", "Local Open Scope N_scope.", ""]
     for k, v in p.items():
         if isinstance(v, list):
             L.append(f"Definition {k} : list N := [{'; '.join(str(x) for x in v)}].")
